@@ -53,6 +53,8 @@ def onWrite (s : St) (first last : Nat) (cid : Nat) (mn mx : Int) : St × R :=
         -- a snapshot entry that does not account for the records in front of the batch: as a chunk notified from the middle
         let middle := Generated.C02.staleDropOnlyForSnapshotEntries && l.loaded && first > l.recs
         (updLast s.chunks (fun c => { c with minTs := min c.minTs mn, maxTs := max c.maxTs mx, loaded := false }), middle)
+  -- proposed repair of F-C02-901: "late" is decided by `Recs` as it was before this notification
+  let late := Generated.C02.onWriteLateByRecs && decide (last + 1 ≤ (match chunks.getLast? with | some l => l.recs | none => 0))
   let chunks := updLast chunks (fun c => { c with recs := if Generated.C02.onWriteRecsNeverDecrease then max c.recs (last + 1) else last + 1 })
   let s := { s with chunks := chunks }
   match chunks.getLast? with
@@ -60,7 +62,7 @@ def onWrite (s : St) (first last : Nat) (cid : Nat) (mn mx : Int) : St × R :=
   | some l =>
     if l.corrupted then (s, .corrupted)
     else if newChk && first > 0 then ({ s with chunks := updLast chunks (fun c => { c with corrupted := true, root := none }) }, .corrupted)
-    else if l.lastRec > 0 && ((Generated.C02.onWriteSkipsLateNotification && last ≤ l.lastRec) ||
+    else if late || l.lastRec > 0 && ((Generated.C02.onWriteSkipsLateNotification && last ≤ l.lastRec) ||
         (if Generated.C02.onWriteSkipIsStrictLess then u32sub last l.lastRec < sparseSpace else u32sub last l.lastRec ≤ sparseSpace)) then (s, .ok)
     else
       let it : Points.Iv := ⟨⟨mn, first⟩, ⟨mx, last⟩⟩
@@ -185,7 +187,10 @@ def rebuildWith (segMax0 : Int) (s : St) (cid : Nat) (tss : List Int) : St :=
     | _ =>
       match root with
       | none => { chunks := updChk s.chunks cid (fun c => { c with root := none, corrupted := true }) }
-      | some r => { chunks := updChk s.chunks cid (fun c => { c with root := some r, corrupted := false, lastRec := 0, minTs := min c.minTs mn, maxTs := max c.maxTs mx }) }
+      | some r =>
+        -- proposed repair of F-C02-901: the hull accounts for every record the rebuild has scanned
+        let recsOf (c : Chk) : Nat := if Generated.C02.rebuildRaisesRecs then max c.recs tss.length else c.recs
+        { chunks := updChk s.chunks cid (fun c => { c with root := some r, corrupted := false, lastRec := 0, minTs := min c.minTs mn, maxTs := max c.maxTs mx, recs := recsOf c }) }
 
 def rebuild (s : St) (cid : Nat) (tss : List Int) : St := rebuildWith Generated.C02.rebuildSegmentMaxInit s cid tss
 /-- the rebuild a repair of finding #41 would give: the segment maximum starts below every timestamp -/
